@@ -141,6 +141,36 @@ Proof.
     unfold with_message in H. destruct (opt_message r3) as [msg r4| | | |]; try discriminate. cbn [pmap] in *. inversion H; subst. reflexivity.
 Qed.
 
+Lemma function_fails_alike k t : function_like t = PFail -> xfunction rv (S (S k)) t = PFail.
+Proof.
+  unfold function_like. cbn [xfunction xcall_expr]. destruct (var_name t) as [name r| | | |]; try discriminate; cbn [pbind]; [|reflexivity].
+  destruct r as [|c r]; [discriminate|]. destruct (Ascii.eqb c "("); discriminate.
+Qed.
+
+(* the same for every answer: a recoverable error and a failure of the clause parser are the whole-grammar parser's too *)
+Theorem xaccess_clause_extends_all : forall n s x, clause rv n s = x -> x <> PUnk -> x <> POof ->
+  forall m, n <= m -> xaccess_clause rv (S (S (S (S m)))) s = pmap clause_tree x.
+Proof.
+  intros n s x H H1 H2 m L. unfold clause in H. rewrite xaccess_clause_S. cbv zeta.
+  destruct (match not_kw (skip_ws_comments s) with Some r0 => (true, r0) | None => (false, skip_ws_comments s) end) as [neg s1].
+  destruct (access n s1) as [q r1| | | |] eqn:Ea; cbn [pmap] in H; try (subst x; congruence);
+    rewrite (xaccess_extends n s1 _ Ea ltac:(discriminate) ltac:(discriminate) (S m) ltac:(lia)); cbn [pmap pbind]; try (subst x; reflexivity).
+  destruct (value_cmp (skip_ws_comments r1)) as [cm r2| | | |]; cbn [pmap pbind] in *; try (subst x; (reflexivity || congruence)).
+  destruct (is_unary (fst cm)).
+  { subst x. unfold with_message. destruct (opt_message r2); reflexivity. }
+  rewrite xvalue_S. cbv zeta. rewrite parse_value_skip.
+  destruct (parse_value rv n r2) as [l r3| | | |] eqn:Ep; cbn [pmap] in H; try (subst x; congruence);
+    rewrite (parse_value_fuel_mono rv n (S (S m)) r2 _ ltac:(lia) Ep) by discriminate; cbn [pcut pbind]; try (subst x; reflexivity).
+  - subst x. unfold with_message. destruct (opt_message r3); reflexivity.
+  - destruct (function_like (skip_ws_comments r2)) eqn:Ef; cbn [pmap] in H; try (subst x; congruence).
+    + exfalso. eapply ClauseParseProps.function_like_not_ok. exact Ef.
+    + rewrite (no_function_here m _ Ef).
+      destruct (access n (skip_ws_comments r2)) as [q2 r3| | | |] eqn:Ea2; cbn [pmap] in H; try (subst x; congruence);
+        rewrite (xaccess_extends n _ _ Ea2 ltac:(discriminate) ltac:(discriminate) m L); cbn [pmap pcut pbind]; try (subst x; reflexivity).
+      subst x. unfold with_message. destruct (opt_message r3); reflexivity.
+    + rewrite (function_fails_alike m _ Ef). cbn [pcut pbind]. subst x. reflexivity.
+Qed.
+
 (* every concrete spelling of an access clause, read by the whole-grammar parser, is the tree of that clause *)
 Corollary whole_grammar_reads_every_clause_spelling : forall c o rest, cwf rv c o -> cfollow rv c rest ->
   xaccess_clause rv (S (S (S (S (S (len (crender rv c +++ rest))))))) (crender rv c +++ rest) =
